@@ -64,8 +64,19 @@ fn gen_ops(rng: &mut Rng, len: usize, n: usize) -> Vec<Value> {
         } else if k < 48 || iters == 0 {
             iters += 1;
             json!({"op": "iter_new"})
-        } else if k < 78 {
+        } else if k < 70 {
             json!({"op": "iter_next", "k": rng.usize(iters)})
+        } else if k < 76 {
+            // provided Iterator methods (defined through `next` unless overridden): nth around the remaining count
+            let n = match rng.below(4) {
+                0 => 0,
+                1 => len,
+                2 => len + 1 + rng.usize(3),
+                _ => rng.usize(len + 1),
+            };
+            json!({"op": "iter_nth", "k": rng.usize(iters), "n": n})
+        } else if k < 78 {
+            json!({"op": "iter_count", "k": rng.usize(iters)})
         } else if k < 94 {
             json!({"op": "iter_hint", "k": rng.usize(iters)})
         } else {
@@ -221,6 +232,24 @@ pub fn exec(input: &Value) -> Value {
                                     None => json!({"item": null}),
                                     Some(item) => json!({"item": read_item(item)}),
                                 },
+                            }
+                        }
+                        "iter_nth" => {
+                            let k = op["k"].as_u64().unwrap() as usize;
+                            let n = op["n"].as_u64().unwrap() as usize;
+                            match iters.get_mut(k) {
+                                None => json!({"no_such_iter": true}),
+                                Some(it) => match it.nth(n) {
+                                    None => json!({"item": null}),
+                                    Some(item) => json!({"item": read_item(item)}),
+                                },
+                            }
+                        }
+                        "iter_count" => {
+                            let k = op["k"].as_u64().unwrap() as usize;
+                            match iters.get_mut(k) {
+                                None => json!({"no_such_iter": true}),
+                                Some(it) => json!({"n": it.by_ref().count()}),
                             }
                         }
                         "iter_hint" => {
